@@ -156,11 +156,6 @@ func (r *Runner) lightBigUndo(l *Line) *World {
 	lc.H = undone
 	lc.S = prev
 	what := fmt.Sprintf("after Proof.Undo of the block with %d additions", K)
-	if len(ud.ToDestroy) > 0 && w.onlyLost(lc, und, Rprev) {
-		w.fail(props, in, "hold.lost.td", what+": held leaves lost (the undone block overwrote an empty root)", und.Held, w.sy.Ts(lc.H))
-		w.lightVerify(in, lc, props, what)
-		return w
-	}
 	w.compareHolding(in, lc, und, Rprev, props, what)
 	w.lightVerify(in, lc, props, what)
 	return w
@@ -360,37 +355,7 @@ func (w *World) lightUndo(in *Inst, lc *lightClient, st *Step) {
 	lc.H = newH
 	w.mon.retainH(in, "cached hashes", newH)
 	w.mon.retainProof(in, "cached proof", &lc.P)
-	if len(st.Upd.Td) > 0 && w.onlyLost(lc, st, Rprev) {
-		// Known finding C08-F1: the undone block's additions overwrote an empty
-		// root and Proof.Undo lost leaves that are live before and after the
-		// block.  What is still held must verify; then the client is put back
-		// in step with the specification so that the rest of the behaviour is
-		// still checked.
-		w.fail(props, in, "hold.lost.td", "after Proof.Undo: held leaves lost (the undone block overwrote an empty root)",
-			st.Held, w.sy.Ts(lc.H))
-		w.lightVerify(in, lc, props, "after Proof.Undo")
-		lc.H = w.leafHashes(st.Held)
-		lc.P = utreexo.Proof{Targets: w.encTargets(st.Cp.T, Rprev), Proof: w.sy.Hs(st.Cp.P)}
-		return
-	}
 	w.compareHolding(in, lc, st, Rprev, props, "after Proof.Undo")
 	w.lightVerify(in, lc, props, "after Proof.Undo")
 }
 
-// onlyLost: what the client holds is a strict subset of the expected (leaf,
-// position) pairs - leaves were lost, none invented, none misplaced.
-func (w *World) onlyLost(lc *lightClient, st *Step, R uint8) bool {
-	if len(lc.H) != len(lc.P.Targets) || len(lc.H) >= len(st.Held) {
-		return false
-	}
-	exp := map[pairT]bool{}
-	for i, s := range st.Held {
-		exp[pairT{leafTerm(s), enc(st.Cp.T[i].RI(), R)}] = true
-	}
-	for i := range lc.H {
-		if !exp[pairT{w.sy.T(lc.H[i]), lc.P.Targets[i]}] {
-			return false
-		}
-	}
-	return true
-}
